@@ -11,6 +11,7 @@ There are two ways to use this module. You can either use the
 """
 
 import collections
+import operator
 from typing import (Any, Callable, Dict, Iterable, List, Optional, Tuple,
                     Union, cast)
 
@@ -658,14 +659,20 @@ class BlockDiagonalizer:
         # Number of receive antennas per user
         iNrU = nrows // self.num_users
 
-        if isinstance(desired_users, collections.abc.Iterable):
-            vtIndexes: List[int] = []
-            for index in desired_users:
-                vtIndexes.extend(range(iNrU * index, (index + 1) * iNrU))
-        else:
-            assert isinstance(desired_users, int)
-            vtIndexes = list(
-                range(iNrU * desired_users, (desired_users + 1) * iNrU))
+        # The user indexes as python integers. Note that an index may be
+        # any kind of integer (a python int, a numpy integer of any width or
+        # a 0-d integer array) and that the row indexes must not be computed
+        # in the (possibly narrow) type of the user indexes: with np.uint8
+        # user indexes `iNrU * index` would overflow for the users >= 128.
+        try:
+            users = [operator.index(desired_users)]  # type: ignore
+        except TypeError:
+            assert isinstance(desired_users, collections.abc.Iterable)
+            users = [operator.index(index) for index in desired_users]
+
+        vtIndexes: List[int] = []
+        for index in users:
+            vtIndexes.extend(range(iNrU * index, (index + 1) * iNrU))
         return mt_channel[vtIndexes, :]
 
 
